@@ -664,19 +664,18 @@ Proof.
   destruct (p_blocks p) as [|[[[first fk] fo] fs] pbs] eqn:Epb; [discriminate|].
   destruct (rev (p_blocks p)) as [|[[[last lastk] lo] ls] rpbs] eqn:Erv; [rewrite Epb in Erv; rewrite Erv in E; discriminate|].
   rewrite Epb in Erv. rewrite Erv in E.
-  pose proof (agree_add_return_edges_for_patch_calls m_funcs s s (p_cfg p) eq_refl (agree_refl _ _)) as A1.
-  destruct (add_return_edges_for_patch_calls s (p_cfg p)) as [s1 pcfg1]; cbn [fst] in A1.
-  destruct (if bkind_eqb (bk (the_blk s b)) KCode then update_patch_return_edges s1 b pcfg1 (p_proxies p) else (pcfg1, p_proxies p)) as [pcfg pprox].
-  destruct (insert_split s1 b off repl) as [[[e ft] s2]|] eqn:E2; cbn [bind] in E; [|discriminate].
-  pose proof (FInv_agree _ _ A1 H) as F1.
-  destruct (FW_insert_split _ _ _ _ _ _ _ E2 F1) as (F2 & K2).
-  set (s3 := insert_stitch s2 b first last lastk e ft) in *.
-  assert (A3 : agree m_funcs s2 s3) by (apply agree_insert_stitch; [reflexivity|apply agree_refl]).
+  destruct (if bkind_eqb (bk (the_blk s b)) KCode then update_patch_return_edges s b (p_cfg p) (p_proxies p) else (p_cfg p, p_proxies p)) as [pcfg0 pprox].
+  destruct (insert_split s b off repl) as [[[e ft] s2]|] eqn:E2; cbn [bind] in E; [|discriminate].
+  destruct (FW_insert_split _ _ _ _ _ _ _ E2 H) as (F2 & K2).
+  pose proof (agree_add_return_edges_for_patch_calls m_funcs s2 s2 pcfg0 eq_refl (agree_refl _ _)) as A1.
+  destruct (add_return_edges_for_patch_calls s2 pcfg0) as [s2' pcfg]; cbn [fst] in A1.
+  set (s3 := insert_stitch s2' b first last lastk e ft) in *.
+  assert (A3 : agree m_funcs s2 s3) by (eapply agree_trans; [exact A1|apply agree_insert_stitch; [reflexivity|apply agree_refl]]).
   set (s4 := edit_byte_interval s3 bi _ repl (p_data p) [b]) in *.
   assert (A4 : agree m_funcs s2 s4) by (apply agree_edit_byte_interval; try reflexivity; exact A3).
   pose proof (FInv_agree _ _ A4 F2) as F4.
   assert (K4 : fkeys_sub s s4).
-  { eapply fkeys_trans; [apply fkeys_agree, A1|]. eapply fkeys_trans; [exact K2|apply fkeys_agree, A4]. }
+  { eapply fkeys_trans; [exact K2|apply fkeys_agree, A4]. }
   assert (Hp4 : forall id, In id (pblock_ids p) -> (id < next s4)%nat /\ aget id (fbb s4) = None).
   { intros id Hid. destruct (Hp id Hid) as (P1 & P2). destruct K4 as (N4 & K4). split; [lia|].
     destruct (aget id (fbb s4)) eqn:Eid; [|reflexivity]. exfalso.
